@@ -1034,10 +1034,14 @@ class StructOf(DataType):
             for key, val in value.items():
                 if val is not None:  # goodie: allow None instead of missing key
                     result[key] = self.members[key](val)
-            return ImmutableDict(result)
         except Exception as e:
             errcls = RangeError if isinstance(e, RangeError) else WrongTypeError
             raise errcls('can not convert struct element %s' % key) from e
+        # None is allowed instead of a missing optional element only
+        missing = set(self.members) - set(self.optional) - set(result)
+        if missing:
+            raise WrongTypeError(f"missing struct elements: {', '.join(missing)}")
+        return ImmutableDict(result)
 
     def validate(self, value, previous=None):
         self.check_type(value, True)
